@@ -280,7 +280,14 @@ pub fn minimise(check: &dyn Check, t: &Trace, ctx: &Ctx, rule: &str, budget: usi
             _ => {}
         }
     }
-    best.events.retain(|e| !matches!(e, Event::FeedStr { s, .. } | Event::Feed { s } if s.is_empty()));
+    {
+        // drop feed events that became empty - only if the violation survives that too
+        let mut cand = best.clone();
+        cand.events.retain(|e| !matches!(e, Event::FeedStr { s, .. } | Event::Feed { s } if s.is_empty()));
+        if cand.events.len() != best.events.len() && try_cand(&cand, &mut attempts) {
+            best = cand;
+        }
+    }
     // 3. simpler schedules: feed loop -> feed_str, partial drain -> all; merge adjacent feed_str
     for idx in 0..best.events.len() {
         let mut cand = best.clone();
@@ -847,7 +854,8 @@ pub fn run_check(check: &dyn Check, tier: Tier, seed: u64, runs_override: Option
             "runs_skipped_not_applicable": skipped,
             "corpus_traces_replayed": corpus_run,
             "runs_per_hour": if explore_wall > 0.0 { (evaluations as f64 / explore_wall * 3600.0) as u64 } else { 0 },
-            "seeds_per_hour": "one VERIF_SEED per invocation; every run derives its own PRNG stream from (VERIF_SEED, property, run index)",
+            "seeds_per_hour": if explore_wall > 0.0 { (evaluations as f64 / explore_wall * 3600.0) as u64 } else { 0 },
+            "seeds_note": "one VERIF_SEED per invocation; every run derives its own PRNG seed from (VERIF_SEED, property, run index), so seeds per hour = simulated runs per hour",
             "simulated_time": "n/a (no clock in avt); simulated steps are reported instead",
             "simulated_steps": {"events_delivered": steps_events, "characters_fed": steps_chars},
             "fault_kinds_fired": Value::Object(fault_kinds),
